@@ -25,6 +25,11 @@ K_EXC = "call_application:exc_info-reraised-as-new-exception"
 K_MD5 = "response-from_file:content-md5-dropped"
 K_NBSP = "response-from_file:text-file-strips-non-ascii-whitespace"
 K_LAZY = "call_application:iterable-events-after-eager-start_response-lost"
+K_EMPTY = "request-roundtrip:empty-path-has-no-request-target"
+K_NOHOST = "request-roundtrip:url-host-lost-without-host-header"
+K_HTTPS = "request-roundtrip:url-scheme-lost-https"
+K_TEXTLEN = "from_file:text-file-content-length-counted-in-characters"
+K_METHOD = "request-roundtrip:method-upper-cased"
 
 STR_WS = set("\t\n\x0b\x0c\r\x1c\x1d\x1e\x1f \x85\xa0")
 ASCII_WS = set(" \t\n\r\x0b\x0c")
@@ -158,7 +163,8 @@ def unjE(d):
 # --------------------------------------------------------------------------- generators (requests)
 # trailing data, with the whitespace-only and line-terminator-only suffixes a lenient check would let through
 EXTRAS = [b"", b"X", b"\r\n", b"\n", b" ", b"\t ", b"\r\n\r\n", b"\r", b"\x0b\x0c", b"GET / HTTP/1.0\r\n\r\n", b"\x00", b"\xa0"]
-METHODS = ["GET", "POST", "PUT", "DELETE", "PATCH", "HEAD", "OPTIONS", "PROPFIND", "M-SEARCH", "X_Y", "FOO!", "A1"]
+METHODS = ["GET", "POST", "PUT", "DELETE", "PATCH", "HEAD", "OPTIONS", "PROPFIND", "M-SEARCH", "X_Y", "FOO!", "A1",
+           "get", "Post", "m-search", "pATCH"]          # a method is a case-sensitive token
 PROTOS = ["HTTP/1.0", "HTTP/1.1", "HTTP/1.1", "HTTP/2", "HTTP/0.9"]
 HOSTS = ["localhost:80", "example.com", "example.com:8080", "example.com:80", "example.com:443", "[::1]:8080", "[::1]",
          "a.b-c.example:1"]
@@ -191,6 +197,8 @@ def rand_qs(rng):
 
 def rand_path(rng, allow_empty=False):
     n = rng.choice([0, 1, 1, 2, 2, 3])
+    if allow_empty and rng.random() < 0.5:
+        return b""
     if n == 0 and not allow_empty:
         return b"/"
     return b"".join(b"/" + rng.choice(SEGS) for _ in range(n))
@@ -222,7 +230,9 @@ def rand_hdrs(rng, host=True):
 def rand_env(rng, wellformed=False):
     """wellformed: inside the hypotheses of the round-trip theorem (http, Host present, consistent body)"""
     script = rng.choice([b"", b"", b"", b"/app", b"/a b", "/\xe9".encode("utf-8")])
-    path = rand_path(rng, allow_empty=bool(script) and rng.random() < 0.3)
+    path = rand_path(rng, allow_empty=(bool(script) and rng.random() < 0.3) or (not script and rng.random() < 0.06))
+    if not path and not script and rng.random() < 0.0:
+        pass
     E = {"method": rng.choice(METHODS), "script": script, "path": path, "qs": rand_qs(rng), "proto": rng.choice(PROTOS),
          "scheme": "http" if wellformed or rng.random() < 0.8 else "https",
          "sname": rng.choice(["localhost", "srv.example"]), "sport": rng.choice(["80", "8080", "443"]),
@@ -279,6 +289,11 @@ def ref_target(script, path, qs):
     return ref_quote(script) + ref_quote(path) + ("?" + qs if qs else "")
 
 
+def ref_wire_target(script, path, qs):
+    """a request line cannot go without a target: an empty one is written "/" (RFC 7230 5.3.1)"""
+    return ref_target(script, path, qs) or "/"
+
+
 def ref_head(method, target, proto, hdr_items):
     lines = ["%s %s %s" % (method, target, proto)] + ["%s: %s" % kv for kv in sorted(hdr_items)]
     return "\r\n".join(lines).encode("latin-1")
@@ -327,15 +342,19 @@ def rt_request_oracle(E, extra=b"X", file_kind="bytesio"):
     b = req.as_bytes()
     # --- independent framing of the serialisation
     items = list(exp_items)
-    exp_head_nocl = ref_head(method, ref_target(E["script"], E["path"], E["qs"]), proto, exp_items)
+    target = ref_wire_target(E["script"], E["path"], E["qs"])
+    no_target = not ref_target(E["script"], E["path"], E["qs"])
+    exp_head_nocl = ref_head(method, target, proto, exp_items)
     if "Content-Length" not in dict(items):
         # reading the body may add a (truthful) Content-Length; with a body it must be there
         items.append(("Content-Length", str(len(body))))
-    exp_head = ref_head(method, ref_target(E["script"], E["path"], E["qs"]), proto, items)
+    exp_head = ref_head(method, target, proto, items)
     if not body and b == exp_head_nocl:
         exp_head = exp_head_nocl
     exp = exp_head + (b"\r\n\r\n" + body if body else b"")
     if b != exp:
+        if no_target:
+            return (K_EMPTY, "as_bytes() of a request with an empty path is %r: its request line has no target, expected %r" % (b, exp))
         return ("request-roundtrip:as_bytes-form", "as_bytes() is %r, expected %r" % (b, exp))
     # as_bytes(skip_body) omits only the body (a Content-Length that reading the body adds may be absent)
     if head_only not in (exp_head, exp_head_nocl):
@@ -400,8 +419,16 @@ def make_file(kind, data):
     raise ValueError(kind)
 
 
+def no_target(E):
+    return "path" in E and not ref_target(E["script"], E["path"], E["qs"])
+
+
 def compare_requests(E, req, r2, url1, h1, body, how):
+    if no_target(E):
+        url1 = url1 + "/"      # the same URL (RFC 3986 6.2.3) in the only spelling a request line can carry
     if r2.method != E["method"]:
+        if r2.method == E["method"].upper():
+            return (K_METHOD, "%s: method %r became %r" % (how, E["method"], r2.method))
         return ("request-roundtrip:method", "%s: method %r became %r" % (how, E["method"], r2.method))
     if r2.url != url1:
         return ("request-roundtrip:url", "%s: url %r became %r" % (how, url1, r2.url))
@@ -437,10 +464,30 @@ def rt_request_text_oracle(E):
     req = build_request(E)
     h1 = dict(req.headers)
     url1 = req.url
+    no_target = not ref_target(E["script"], E["path"], E["qs"])
+    try:
+        t = req.as_text()
+        Request0 = type(req)
+        Request0.from_bytes(req.as_bytes())
+    except Exception:  # noqa
+        return None                # (the binary oracle reports it)
+    req = build_request(E)
     t = req.as_text()
     if t.encode("utf-8") != req.as_bytes():
         return ("request-roundtrip:as_text", "as_text() is not the utf-8 decoding of as_bytes()")
     Request = type(req)
+    if body:
+        # a text file that goes on after the request: Content-Length counts BYTES of the encoded text
+        for trailing in ("NEXT", " ", "\xe9\u20ac"):
+            f = io.StringIO(t + trailing)
+            try:
+                r2 = Request.from_file(f)
+            except Exception as e:  # noqa
+                return ("request-roundtrip:text-raises", "from_file(StringIO) raised %s: %s on %r" % (exc_name(e), e, t + trailing))
+            rest = f.read()
+            if r2.body != body or rest != trailing:
+                key = K_TEXTLEN if not body.isascii() else "request-roundtrip:consumed"
+                return (key, "from_file(StringIO(as_text() + %r)): body %r (expected %r), %r left in the file" % (trailing, r2.body, body, rest))
     for how, mk in (("from_file(StringIO)", lambda: Request.from_file(io.StringIO(t))),
                     ("from_file(TextIOWrapper)", lambda: Request.from_file(io.TextIOWrapper(io.BytesIO(t.encode("utf-8")),
                                                                                           encoding="utf-8", newline=""))),
@@ -569,6 +616,17 @@ def rt_response_str_oracle(status, hl, body):
     exp = "\r\n".join([status] + ["%s: %s" % kv for kv in hl] + (["", t] if body else []))
     if s != exp:
         return ("response-roundtrip:str-form", "str(resp) is %r, expected %r" % (s, exp))
+    if body:
+        for trailing in ("NEXT", "\r\n", "\xe9"):
+            f = io.StringIO(s + trailing)
+            try:
+                r2 = Response.from_file(f)
+            except Exception as e:  # noqa
+                return ("response-roundtrip:from_file-raises", "from_file(StringIO(str + %r)) raised %s: %s" % (trailing, exc_name(e), e))
+            rest = f.read()
+            if r2.body != body or rest != trailing:
+                key = K_TEXTLEN if not body.isascii() else "response-roundtrip:consumed"
+                return (key, "from_file(StringIO(str(resp) + %r)): body %r (expected %r), %r left in the file" % (trailing, r2.body, body, rest))
     files = [("from_file(StringIO(str))", lambda: io.StringIO(s), True)]
     if s.isascii():
         files.append(("from_file(BytesIO(str))", lambda: io.BytesIO(s.encode("ascii")), False))
@@ -1188,7 +1246,8 @@ def request_reuse_oracle(E, ops):
                     msg = "a copy() serialises to %r with body %r" % (c.as_bytes(), c.body)
             elif op == "from_bytes":
                 r2 = type(req).from_bytes(req.as_bytes())
-                msg = None if r2.body == body and r2.url == req.url else "from_bytes(as_bytes()) gives %r %r" % (r2.url, r2.body)
+                msg = None if r2.body == body and r2.method == req.method and r2.url == req.url + ("/" if no_target(E) else "") else \
+                    "from_bytes(as_bytes()) gives %r %r" % (r2.url, r2.body)
             elif op == "headers":
                 h = {k: v for k, v in req.headers.items() if k != "Content-Length"}
                 cl = req.headers.get("Content-Length")
@@ -1204,7 +1263,11 @@ def request_reuse_oracle(E, ops):
                     msg = None if got == body else "an application read %r from wsgi.input, the body is %r" % (got, body)
         except Exception as e:  # noqa
             msg = "%s raised %s: %s" % (op, exc_name(e), e)
+            if op == "from_bytes" and no_target(E) and "request line" in str(e):
+                return (K_EMPTY, "a request with an empty path: %s" % msg)
         if msg:
+            if op == "from_bytes" and "gives" in msg and r2.method == req.method.upper() != req.method:
+                return (K_METHOD, "from_bytes(as_bytes()): method %r became %r" % (req.method, r2.method))
             return ("request-reuse:" + op, "step %d (%s) after %r on ONE request: %s" % (i, op, ops[:i], msg))
     return None
 
@@ -1282,7 +1345,10 @@ def pipelined_oracle(msgs, is_resp):
             return ("pipelined:from_file-raises", "message %d of %d in one file: from_file raised %s: %s" % (i, len(msgs), exc_name(e), e))
         msg = check(obj)
         if msg:
-            return ("pipelined:" + ("response" if is_resp else "request"), "message %d of %d read from ONE file object: %s" % (i, len(msgs), msg))
+            key = "pipelined:" + ("response" if is_resp else "request")
+            if isinstance(msg, tuple):
+                key, msg = (msg[0] if msg[0] in (K_METHOD, K_EMPTY) else key), msg[1]
+            return (key, "message %d of %d read from ONE file object: %s" % (i, len(msgs), msg))
     rest = f.read()
     if rest:
         return ("pipelined:consumed", "%r left in the file after reading all messages" % rest)
@@ -1402,6 +1468,17 @@ def rt_response_config_oracle(cls_name, status_int, charset, t, hl0):
     exp = "\r\n".join([status] + ["%s: %s" % kv for kv in hl] + (["", t] if body else []))
     if s1 != exp:
         return ("response-roundtrip:str-form", "%s: str(resp) is %r, expected %r" % (cls.__name__, s1, exp))
+    if body:
+        f = io.StringIO(s1 + "NEXT")
+        try:
+            r2 = cls.from_file(f)
+            rest = f.read()
+        except Exception as e:  # noqa
+            return ("response-roundtrip:from_file-raises", "%s from_file(StringIO(str + 'NEXT')) raised %s: %s" % (cls.__name__, exc_name(e), e))
+        if r2.body != body or rest != "NEXT":
+            key = K_TEXTLEN if len(t) != len(body) else "response-roundtrip:consumed"
+            return (key, "%s (charset %s) from_file(StringIO(str(resp) + 'NEXT')): body %r (expected %r), %r left" % (
+                cls.__name__, enc, r2.body, body, rest))
     for how, mk in (("from_file(StringIO(str))", lambda: io.StringIO(s1)),
                     ("from_file(minimal text file)", lambda: MinimalFile(io.StringIO(s1))),
                     ("from_file(wire bytes)", lambda: io.BytesIO(resp_wire(status, hl, body)))):
@@ -1497,17 +1574,21 @@ def outside_check(kind, E, touched, expect_raise):
     except Exception as e:  # noqa
         if expect_raise and isinstance(e, expect_raise):
             return None
+        if no_target(E) and isinstance(e, ValueError) and "request line" in str(e):
+            return (K_EMPTY, "a request with an empty path: from_bytes(as_bytes()) raised %s" % e)
         return ("outside-domain:" + kind, "%s: %s (only %s is a documented refusal here)" % (
             exc_name(e), e, expect_raise.__name__ if expect_raise else "no exception"))
     if b.count(b"\r\n\r\n") < 1 or not b.endswith(body):
         return ("outside-domain:" + kind, "as_bytes() does not end with the body: %r" % b[-60:])
-    if "method" not in touched and r2.method != E["method"]:
+    if r2.method != E["method"]:
+        if r2.method == E["method"].upper():
+            return (K_METHOD, "from_bytes: method %r became %r" % (E["method"], r2.method))
         return ("outside-domain:" + kind, "method %r became %r" % (E["method"], r2.method))
-    if kind == "lower-method" and r2.method != E["method"].upper():
-        return ("outside-domain:" + kind, "method %r became %r" % (E["method"], r2.method))
+    slash = "/" if no_target(E) else ""
+    url1 = url1 + slash
     if "url" not in touched and r2.url != url1:
         return ("outside-domain:" + kind, "url %r became %r" % (url1, r2.url))
-    if kind in ("https", "no-host") and r2.path_qs != req.path_qs:
+    if kind in ("https", "no-host") and r2.path_qs != req.path_qs + slash:
         return ("outside-domain:" + kind, "path_qs %r became %r" % (req.path_qs, r2.path_qs))
     if kind == "https" and r2.host != req.host:
         return ("outside-domain:" + kind, "host %r became %r" % (req.host, r2.host))
@@ -1521,6 +1602,13 @@ def outside_check(kind, E, touched, expect_raise):
         return ("outside-domain:" + kind, "untouched headers %r became %r" % (h1, h2))
     if kind == "padded-value" and h2.get("X-Pad") != h1["X-Pad"].strip():
         return ("outside-domain:" + kind, "X-Pad %r became %r" % (h1["X-Pad"], h2.get("X-Pad")))
+    # the URL itself: the statement says "same URL", the wire form carries neither the scheme nor (without a Host
+    # header) the host — recorded findings, everything else above has been checked first
+    if kind == "no-host" and r2.url != url1:
+        return (K_NOHOST, "a request without a Host header (host from SERVER_NAME/SERVER_PORT): url %r became %r; as_bytes() is %r" % (
+            url1, r2.url, b[:80]))
+    if kind == "https" and r2.url != url1:
+        return (K_HTTPS, "an https request: url %r became %r; as_bytes() is %r" % (url1, r2.url, b[:80]))
     if kind == "big-body":
         try:
             type(req).from_bytes(b + b" ")
@@ -1530,8 +1618,9 @@ def outside_check(kind, E, touched, expect_raise):
     return None
 
 
-OUTSIDE_KINDS = ["latin1-value", "wide-value", "lower-method", "https", "no-host", "padded-value", "odd-keys", "empty-path",
+OUTSIDE_KINDS = ["latin1-value", "wide-value", "https", "no-host", "padded-value", "odd-keys",
                  "space-in-query", "big-body", "non-utf8-text"]
+# ("lower-method" and "empty-path" used to be here: they are inside the statement and are now generated by rand_env)
 
 
 def outside_domain_script(rng):
@@ -1738,9 +1827,9 @@ def run_case(case):
     if kind == "outside":
         E = unjE(case["env"])
         what = case["what"]
-        touched = {"latin1-value": {"headers"}, "wide-value": {"headers"}, "lower-method": {"method"}, "https": {"url"}, "no-host": {"url"},
-                   "padded-value": {"headers"}, "odd-keys": {"headers"}, "empty-path": {"url"}, "space-in-query": {"url", "version"}}.get(what, set())
-        raises = ValueError if what in ("latin1-value", "wide-value", "empty-path", "space-in-query") else None
+        touched = {"latin1-value": {"headers"}, "wide-value": {"headers"}, "https": {"url"}, "no-host": {"url"},
+                   "padded-value": {"headers"}, "odd-keys": {"headers"}, "space-in-query": {"url", "version"}}.get(what, set())
+        raises = ValueError if what in ("latin1-value", "wide-value", "space-in-query") else None
         return outside_check(what, E, touched, raises)
     if kind == "blank":
         import random
@@ -1814,7 +1903,9 @@ ORACLE_ONLY = [
 
 
 def run(ctx):
-    ctx.modelled(MODELLED)
+    import webob.util
+    # (take_width / read_body mirror util.read_text_body, which exists once fixes/C20-5 is applied)
+    ctx.modelled(MODELLED + (["webob.util:read_text_body"] if hasattr(webob.util, "read_text_body") else []))
     ctx.extra["regenerated_from_source"] = REGENERATED
     ctx.extra["oracle_only"] = ORACLE_ONLY
     # Model/C20_obs.vo (the encoders used by the correspondence) is not in the closure of Props/C20.vo
@@ -2224,8 +2315,8 @@ def pipelined_requests(envs):
         req = build_request(E)
         url1, h1 = req.url, dict(req.headers)
         b = req.as_bytes()
-        msgs.append((b, lambda r2, E=E, req=req, url1=url1, h1=h1: (lambda m: m[1] if m else None)(
-            compare_requests(E, req, r2, url1, h1, E["input"], "from_file")), type(req)))
+        msgs.append((b, lambda r2, E=E, req=req, url1=url1, h1=h1:
+                     compare_requests(E, req, r2, url1, h1, E["input"], "from_file"), type(req)))
     return pipelined_oracle(msgs, False)
 
 
@@ -2287,7 +2378,7 @@ def oracle_histories(ctx):
         envs = []
         for _ in range(rng.randrange(2, 4)):
             E = rand_env(rng, wellformed=True)
-            while not E["input"]:
+            while not E["input"] or no_target(E):
                 E = rand_env(rng, wellformed=True)        # a request without a body does not end with a line terminator
             envs.append(E)
         report(ctx, pipelined_requests(envs), {"kind": "pipelined-request", "envs": [jE(E) for E in envs]}, "pipelined")
